@@ -54,7 +54,8 @@ def snap(x, depth=0):
                     (('rate', repr(float(getattr(x, 'sampling_rate', 0)))), ('unit', x.time_unit))
         elif isinstance(x, t.TimeArray):
             extra = (('unit', x.time_unit),)
-        return ('A', str(x.dtype), x.shape, x.strides, np.asarray(x).tobytes() if x.dtype != object else repr(x.tolist()), extra)
+        strides = tuple(st if n > 1 else 0 for st, n in zip(x.strides, x.shape))
+        return ('A', str(x.dtype), x.shape, strides, np.asarray(x).tobytes() if x.dtype != object else repr(x.tolist()), extra)
     if isinstance(x, t.Epochs):
         return ('Ep', snap(x.data))
     if isinstance(x, t.Events):
@@ -253,8 +254,8 @@ def mk_csd_input(rs, shape, contig):
         return rs.randn(*shape)
     if len(shape) == 1:
         return rs.randn(shape[0] * 2)[::2]
-    big = rs.randn(*(list(shape[:-2]) + [shape[-2] * 2, shape[-1]]))
-    return big[..., ::2, :]          # same shape, not contiguous, cannot be flattened without a copy when ndim >= 3
+    big = rs.randn(*(list(shape[:-2]) + [shape[-2] * 2 + 1, shape[-1]]))
+    return big[..., :shape[-2] * 2:2, :]   # same shape, not contiguous; with leading dims >= 2 it cannot be flattened without a copy
 
 
 def run_csd(shape, contig, fail, seed):
@@ -277,8 +278,9 @@ def run_csd(shape, contig, fail, seed):
 
 def gen_csd(rng, shape=None, contig=None, fail=None):
     nd = rng.randint(1, 4)
-    shape = shape or [rng.randint(1, 3) for _ in range(nd - 1)] + [rng.choice([4, 5, 8])]
     contig = rng.random() < 0.6 if contig is None else contig
+    lo = 1 if contig else 2
+    shape = shape or [rng.randint(lo, 3) for _ in range(nd - 1)] + [rng.choice([4, 5, 8])]
     fail = fail or rng.choice(['none', 'none', 'nfft', 'sk'])
     seed = rng.randrange(10**6)
     oc, s, before = run_csd(shape, contig, fail, seed)
@@ -508,8 +510,8 @@ def analyzers(rs):
     L = []
     add = lambda name, f, attrs: L.append((name, f, attrs))
     add('SpectralAnalyzer', lambda s: an.SpectralAnalyzer(s, method={'NFFT': 32}), ['psd', 'cpsd', 'periodogram', 'spectrum_fourier', 'spectrum_multi_taper'])
-    add('FilterAnalyzer', lambda s: an.FilterAnalyzer(s, lb=0.1, ub=0.3), ['filtered_boxcar', 'filtered_fourier', 'fir', 'iir'])
-    add('CoherenceAnalyzer', lambda s: an.CoherenceAnalyzer(s, method={'this_method': 'welch', 'NFFT': 32}), ['coherence', 'coherency', 'phase', 'delay', 'coherence_partial', 'spectrum', 'relative_phases'])
+    add('FilterAnalyzer', lambda s: an.FilterAnalyzer(s, lb=0.1, ub=0.3, filt_order=16), ['filtered_boxcar', 'filtered_fourier', 'fir', 'iir'])
+    add('CoherenceAnalyzer', lambda s: an.CoherenceAnalyzer(s, method={'this_method': 'welch', 'NFFT': 32, 'n_overlap': 16}), ['coherence', 'coherency', 'phase', 'delay', 'coherence_partial', 'spectrum'])
     add('MTCoherenceAnalyzer', lambda s: an.MTCoherenceAnalyzer(s), ['coherence', 'confidence_interval'])
     add('SparseCoherenceAnalyzer', lambda s: an.SparseCoherenceAnalyzer(s, ij=[(0, 1), (1, 2)], method={'this_method': 'welch', 'NFFT': 32}), ['coherence', 'coherency', 'phases', 'spectrum', 'relative_phases', 'delay'])
     add('SeedCoherenceAnalyzer', lambda s: an.SeedCoherenceAnalyzer(t.TimeSeries(s.data[0].copy(), sampling_interval=s.sampling_interval), s, method={'this_method': 'welch', 'NFFT': 32}), ['coherence', 'coherency', 'relative_phases', 'delay'])
@@ -517,8 +519,8 @@ def analyzers(rs):
     add('SeedCorrelationAnalyzer', lambda s: an.SeedCorrelationAnalyzer(t.TimeSeries(s.data[0].copy(), sampling_interval=s.sampling_interval), s), ['corrcoef'])
     add('NormalizationAnalyzer', lambda s: an.NormalizationAnalyzer(s), ['percent_change', 'z_score'])
     add('HilbertAnalyzer', lambda s: an.HilbertAnalyzer(s), ['analytic', 'amplitude', 'phase', 'real', 'imag'])
-    add('MorletWaveletAnalyzer', lambda s: an.MorletWaveletAnalyzer(s, freqs=0.2, sd_rel=0.2), ['analytic', 'amplitude', 'phase', 'real', 'imag'])
-    add('SNRAnalyzer', lambda s: an.SNRAnalyzer(t.TimeSeries(np.array([s.data, s.data * 1.1 + 0.1]), sampling_interval=s.sampling_interval)), ['mt_noise_psd', 'mt_signal_psd', 'mt_coherence', 'mt_information', 'correlation'])
+    add('MorletWaveletAnalyzer', lambda s: an.MorletWaveletAnalyzer(t.TimeSeries(s.data[0].copy(), sampling_interval=s.sampling_interval), freqs=0.2, sd_rel=0.2), ['analytic', 'amplitude', 'phase', 'real', 'imag'])
+    add('SNRAnalyzer', lambda s: an.SNRAnalyzer(s), ['mt_noise_psd', 'mt_signal_psd', 'mt_coherence', 'mt_information', 'correlation'])
     add('GrangerAnalyzer', lambda s: an.GrangerAnalyzer(s, order=2), ['causality_xy', 'causality_yx', 'simultaneous_causality', 'order_xy' if False else 'frequencies'])
     return L
 
